@@ -66,6 +66,22 @@ STRW_CFG = {
 STRW_ROOTS = ['pred_find_str::result', 'pred_starts_str::result', 'pred_ends_str::result']
 INPUTS = ['in_n']
 
+SEQ_UPV = r'(const )?std::unique_ptr<(zw_)?value(, std::default_delete<(zw_)?value>)?>'
+SEQ_VECV = r'(const )?(std::vector<' + SEQ_UPV + r'(, std::allocator<' + SEQ_UPV + r'>)?>|value_seq::seq_t)'
+SEQ_SP = r'(const )?std::(shared_ptr<' + SEQ_VECV + r'>|__shared_ptr<' + SEQ_VECV + r'.*>|__shared_ptr_access<' + SEQ_VECV + r'.*>)'
+SEQE_CFG = {
+    'names': {'(anonymous namespace)::seq_elem_producer::next': 'seq_elem_producer_next', '(anonymous namespace)::seq_relem_producer::next': 'seq_relem_producer_next'},
+    'types': {SEQ_UPV: 'mvalue *', SEQ_VECV: 'pvvec', SEQ_SP: 'pvvec *', r'(zw_)?value': 'mvalue', r'value_producer<(zw_)?value>': 'empty_base'},
+    'types_are_records': {SEQ_VECV: True, r'(zw_)?value': True, r'value_producer<(zw_)?value>': True},
+    'record_ctypes': ['pvvec', 'mvalue', 'empty_base'],
+    'types_prelude': '#include "seqe_model.h"\n',
+    'virtual': {'zw_value::clone': 'val_clone'},
+    'extern': {SEQ_UPV + r'::operator(->|\*)': {'c': 'PTR_ID', 'by_value': True},
+               r'std::__shared_ptr_access<.*>::operator(->|\*)': {'c': 'PTR_ID', 'by_value': True},
+               SEQ_VECV + r'::size': 'PVV_SIZE', SEQ_VECV + r'::operator\[\]': 'pvv_at', r'(zw_)?value::set_pos': 'mval_set_pos'},
+}
+SEQE_ROOTS = ['(anonymous namespace)::seq_elem_producer::next', '(anonymous namespace)::seq_relem_producer::next']
+
 
 def jobs(tier):
     src = [os.path.join(HERE, 'harness.c'), os.path.join(OUT, 'stack_bodies.c')]
@@ -86,6 +102,9 @@ def jobs(tier):
                  'hb_string_words', includes=inc, defines=['STR_N=%d' % n], kind='bounded', unwind=n + 3, timeout=1200,
                  cbmc_args=['--object-bits', '10'], inputs=['hn', 'nn', 'sh[*', 'sn[*'],
                  note='bounded: haystack and needle of length <= %d over all 256 byte values; std::string by a model' % n))
+    J.append(Job('bounded_seq_elem_relem', [os.path.join(HERE, 'seqe_harness.c'), os.path.join(OUT, 'seqe_bodies.c')], 'hb_seq_elem', includes=inc,
+                 kind='bounded', unwind=7, timeout=300, cbmc_args=['--object-bits', '10'], inputs=['n'],
+                 note='elem / relem on sequences of <= 4 values (seq_elem_producer, seq_relem_producer of value-seq.cc): order and numbering'))
     add('control', 'h_push', 'stack_push', defines=['VERIF_CONTROL'], kind='control', expect='fail',
         note='same enforcement as push with one deliberately false ensures clause')
     return J
@@ -111,6 +130,8 @@ def prepare(tier):
     lw = vlib.extract('stack', 'libzwerg/stack.cc', CFG, ROOTS, OUT)
     ow = vlib.extract('ovl', 'libzwerg/overload.cc', OVL_CFG, OVL_ROOTS, OUT)
     sw = vlib.extract('strw', 'libzwerg/value-str.cc', STRW_CFG, STRW_ROOTS, OUT)
+    qw = vlib.extract('seqe', 'libzwerg/value-seq.cc', SEQE_CFG, SEQE_ROOTS, OUT)
+    sw.report['functions'] += qw.report['functions']
     lw.report['functions'] += sw.report['functions']
     lw.report['functions'] += ow.report['functions']
     lw.report['dropped'] += ow.report['dropped']
